@@ -1,7 +1,23 @@
 #!/bin/bash
 # Run every stored seeded change against the check of the property it breaks (quick tier).
-# Output: one line per seed: <seed> <property> caught|MISSED
+#   tools/seedall.sh                 : one after the other on /repo itself (apply, check, undo)
+#   tools/seedall.sh iso <verifcopy> [jobs] : in scratch worktrees from a built copy of /verif (tools/seedtest.sh iso), <jobs> at a time
+# Output: one line per seed: <seed> <property> caught: <first VIOLATION line> | MISSED | PATCH-DOES-NOT-APPLY
 cd /verif
+if [ "${1:-}" = iso ]; then
+  vc="$2"; jobs="${3:-3}"
+  one() {
+    d="$1"; vc="$2"; id=$(basename "$d")
+    prop=$(python3 -c "import json; print(json.load(open('$d/meta.json'))['breaks_property'])")
+    out=$(/verif/tools/seedtest.sh iso "$vc" "$d/patch.diff" "$prop" 2>&1)
+    if echo "$out" | grep -q "PATCH-DOES-NOT-APPLY"; then echo "$id $prop PATCH-DOES-NOT-APPLY"
+    elif echo "$out" | grep -q "^VIOLATION"; then echo "$id $prop caught: $(echo "$out" | grep "^VIOLATION" | head -1 | sed 's/replay=[^ ]*//' | cut -c1-120)"
+    else echo "$id $prop MISSED"; fi
+  }
+  export -f one
+  ls -d /verif/seeded/*/ | sed 's,/$,,' | xargs -P "$jobs" -I{} bash -c 'one {} '"$vc"
+  exit 0
+fi
 for d in /verif/seeded/*/; do
   id=$(basename "$d")
   prop=$(python3 -c "import json; print(json.load(open('$d/meta.json'))['breaks_property'])")
